@@ -736,20 +736,36 @@ def run(seed, tier, years=YEARS):
                 rec, tries = search_replay(sc, seed, year, ir, w['class'], inst, line, wit, attempts)
                 # a threshold name computed from an input: try the values the table does not have
                 if not (rec and rec.get('reproduced')):
-                    for extra in ('-1', '-2'):
-                        pol = sc.Policy(f'{seed}/c10/scan/{year}/{w["class"]}.{w["line"]}/{extra}', year,
-                                        fixed={'1040.filing_status': 'Single', '1040.number_dependents': extra})
-                        form_name = f'{w["class"]}{":" + inst if inst else ""}'
-                        r = sc.run(year, [form_name], pol, fields=[f'{form_name}.{w["line"]}'])
-                        tries += 1
-                        if r['exception'] is not None:
-                            bad, kind, culprit, where = classify(r['exception'])
-                            if bad:
-                                rec = {'reproduced': True, 'exception': kind, 'message': str(r['exception'])[:160],
-                                       'culprit': culprit, 'where': where, 'plan': f'number_dependents={extra}', 'tries': tries,
-                                       'replay': {'kind': 'scenario', 'year': year, 'forms': [form_name],
-                                                  'fields': [f'{form_name}.{w["line"]}'], 'inputs': sc.inputs_of(r)}}
-                                break
+                    # sweep every integer input the line reads over small values on both sides of what a table may hold
+                    kinds = _input_kinds(ir)
+                    form_name = f'{w["class"]}{":" + inst if inst else ""}'
+                    _rv, ri_ = gen_c10.refs_of_line(line)
+                    int_inputs = []
+                    for pat in ri_:
+                        if all(p[0] == 'lit' for p in pat):
+                            full = _full_input(form_name, ''.join(p[1] for p in pat))
+                            f_, k_ = full.split('.', 1)
+                            kd = kinds.get((f_.split(':')[0], k_))
+                            if kd and kd[0] == 'int' and full not in int_inputs:
+                                int_inputs.append(full)
+                    done_sweep = False
+                    for name in (int_inputs or ['1040.number_dependents']):
+                        for val in list(range(-3, 10)):
+                            pol = sc.Policy(f'{seed}/c10/scan/{year}/{w["class"]}.{w["line"]}/{name}={val}', year,
+                                            fixed={'1040.filing_status': 'Single', name: str(val)})
+                            r = sc.run(year, [form_name], pol, fields=[f'{form_name}.{w["line"]}'])
+                            tries += 1
+                            if r['exception'] is not None:
+                                bad, kind, culprit, where = classify(r['exception'])
+                                if bad:
+                                    rec = {'reproduced': True, 'exception': kind, 'message': str(r['exception'])[:160],
+                                           'culprit': culprit, 'where': where, 'plan': f'{name}={val}', 'tries': tries,
+                                           'replay': {'kind': 'scenario', 'year': year, 'forms': [form_name],
+                                                      'fields': [f'{form_name}.{w["line"]}'], 'inputs': sc.inputs_of(r)}}
+                                    done_sweep = True
+                                    break
+                        if done_sweep:
+                            break
             else:
                 su = next((u for u in static if (u['class'], u['kind'], u['name'] or u['pattern']) ==
                            (w['class'], w['kind'], w['name'] or w['pattern'])), None)
